@@ -50,6 +50,21 @@ CHECKS = {
         design_ref="DESIGN.md section 3 C05, section 8",
         technique="who-may-call table; forward must-analysis over MIR CFG; provenance",
     ),
+    "C07": dict(
+        category="other",
+        text="Decides (a) drop coverage: every thread-local table that code reachable from Parser::parse and the four analyzer passes "
+             "writes (27 today; the call graph includes callbacks from parol into the generated semantic actions and Into/TryInto "
+             "conversions) is cleared per file by code statically reachable from Analyzer::drop_file, or is in a reasoned exemption "
+             "table (interning, monotonic counters, tables keyed by the fresh TokenIds of a parse, lists drained by post_pass1, codec "
+             "sessions); two tables (type_dag, generic-instance index) are reported UNDECIDED on every run; (b) the re-analysis protocol "
+             "of the language server: on_change, background_analyze and LsIncremental::try_restore drop the file's previous state "
+             "before they parse or restore it on every path on which the file may have been seen, a failed restore drops again, "
+             "on_remove drops, published diagnostics are filtered by the changed file. On its first use the coverage rule confirmed "
+             "F10 (doc comments never dropped: a deleted doc comment kept producing a diagnostic), shown through the analyzer API and "
+             "fixed. It does not decide equality with a freshly started server for every notification history.",
+        design_ref="DESIGN.md section 3 C07, section 8.4o",
+        technique="thread-local effect sets over a may call graph (writes) vs. a static under-approximate call graph (drops); path enumeration with branch facts for the protocol",
+    ),
     "C10": dict(
         category="other",
         text="Decides only the guard the statement names, for every generated parser in the workspace (the current grammar's and the "
